@@ -20,7 +20,7 @@ from gx.props import _hist
 PROP = "C06"
 PROFILE = {"add_formula_column": 10, "modify_formula": 6, "summary": 4, "add_ref_column": 4, "update_record": 16,
            "bulk_update": 8, "remove_record": 6, "rename_column": 3, "modify_type": 3, "to_formula": 2,
-           "undo_earlier": 2, "malformed": 2, "cyclic_formula": 4}
+           "undo_earlier": 2, "malformed": 2, "cyclic_formula": 4, "agg_unsorted": 4}
 CFG = {"oracles": (), "n_bundles": 12, "profile": PROFILE, "hook": "gx.props.c06.install", "tie": False, "k": 3}
 
 
@@ -37,11 +37,43 @@ def g_cyclic_formula(self, w):
   return ["ModifyColumn", t["tableId"], a["colId"], {"formula": "$%s" % b["colId"]}]
 
 
+def setup_unsorted(h):
+  """Set-up bundles: rows, then an aggregate of a formula column over record sets whose ids are not ascending
+  (Gen.g_agg_unsorted), then single-row edits of the aggregated column's input, so that the aggregate is
+  evaluated while only SOME rows of the column it reads are dirty."""
+  from gx.gen_hist import World
+  rng, gen = h.rng, h.gen
+  w = World(h.doc)
+  for t in w.user_tables():
+    k = rng.randint(3, 5)
+    cols = w.data_cols(t)
+    yield [["BulkAddRecord", t["tableId"], [None] * k,
+            {c["colId"]: [gen.value_for(w, c, allow_bad=False) for _ in range(k)] for c in cols}]]
+  for _ in range(3):
+    ua = gen.g_agg_unsorted(World(h.doc))
+    if isinstance(ua, tuple):
+      yield ua[0]
+      break
+    if ua:
+      yield [ua]
+  for _ in range(rng.randint(3, 6)):
+    w = World(h.doc)
+    ts = [t for t in w.user_tables() if t["rows"]]
+    if not ts:
+      return
+    t = rng.choice(ts)
+    nums = [c for c in w.data_cols(t) if c["type"] in ("Int", "Numeric")]
+    if nums:
+      yield [["UpdateRecord", t["tableId"], rng.choice(t["rows"]), {rng.choice(nums)["colId"]: rng.randint(100, 999)}]]
+
+
 def install(h, cfg):
   from gx import engine_driver as ed
   from gx import recalc_harness as rh
   from gx.gen_hist import Gen
   rh.install()
+  if h.rng.random() < 0.5:
+    h.setup = setup_unsorted
   if not hasattr(Gen, "g_cyclic_formula"):
     Gen.g_cyclic_formula = g_cyclic_formula
   k = cfg.get("k", 3)
